@@ -756,22 +756,26 @@ func (e *kvElection) becomeFollower() bool {
 // once for the term that ended. It is a no-op when the instance is not leader,
 // so demotion causes that race with each other or with Stop do not notify twice.
 func (e *kvElection) stepDown(reason string) {
-	if !e.becomeFollower() {
-		return
-	}
-
+	// The callback is read before the term is ended, and it runs before anything that
+	// can take time (a lock, a log sink that blocks): once the flag is down the instance
+	// may be elected again, and the next term's OnPromote must not overtake this term's
+	// OnDemote.
 	e.mu.RLock()
 	onDemote := e.onDemote
 	e.mu.RUnlock()
 
+	if !e.becomeFollower() {
+		return
+	}
+
 	if onDemote != nil {
+		onDemote()
 		log := e.getLogger()
 		log.Info("leader_demoted",
 			append(e.logWithContext(e.runContext()),
 				zap.String("reason", reason),
 			)...,
 		)
-		onDemote()
 	}
 }
 
